@@ -170,18 +170,20 @@ SPEC = {
               "6": "anchors handed to the backend are not in the model's (sorted, first page wins) order",
               "7": "the Go race detector reported a data race during concurrent renders",
               "8": "ResumeStack.Unpack returned something that is not an entry of the stack",
-              "9": "brokenOutOfFlowMap.values() differs from the insertion-ordered model"},
+              "9": "brokenOutOfFlowMap.values() differs from the insertion-ordered model",
+              "10": "the SAME document.Document written again (Write on a fresh backend) gave a different trace: Write keeps state on the Document"},
     "theorems_for_kind": {
         "repeat": "C15_site_perm_invariant_* (every modelled map-iteration site is permutation-invariant; the others: C15_map_ranges_reviewed) and C15_sequential_is_alone (the same document again): a render is a function of its input",
         "fresh-process": "C15_site_perm_invariant_* (map iteration order is re-randomised per process)",
         "concurrent": "C15_noninterference (under C15_globals_readonly) / C15_benign_noninterference",
         "history": "C15_sequential_is_alone (under C15_globals_readonly) / C15_benign_sequential_is_alone + C15_memo_cache_transparent (the hyphenation cache); refuted shapes: C15_ratio_cache_shared_refuted, C15_shared_pointer_inplace_refuted",
+        "rewrite": "C15_sequential_is_alone (the same document again: a Write is a function of (Document, zoom); the Document is the render's context and Write a read-only step of it)",
         "anchors": "C15_site_perm_invariant_anchors / C15_anchors_sorted",
         "race": "hypothesis of C15_noninterference: no step writes shared state (runtime evidence; no Gallina counterpart)",
         "unpack": "C15_unpack_result_is_an_entry / C15_site_perm_invariant_unpack_single",
         "omap": "C15_ordered_map_dict_semantics / C15_site_perm_invariant_brokenOutOfFlow",
     },
-    "rule": "corpus/C15/*.json first, then SplitMix64-seeded paginated documents interleaved with table probes. Documents: many ids per page, internal/external/dangling links, ::before/::after/::marker, floats and abspos broken across pages, counters, target-counter/target-text, string-set, running elements, bookmarks, inline SVG, tables, flex, columns, CSS grid (areas, spans, fr, named lines), data-URL and file images (image cache), hyphens:auto in every language that has a dictionary with words DERIVED FROM THE DICTIONARY'S PATTERNS (non-standard patterns of hu/de/af/ro/eo/sq/mn/te/zu included) plus natural words, quotes:auto with language tags that are not keys of the table, counter styles (UA and @counter-style, extends chains, cycles), the full HTML5 UA stylesheet with presentational hints, @font-face rules giving the same family name to different font files in different documents with lengths in ex/ch/rem, invalid CSS (logger); user stylesheets from a pool that contains one declaration per computed-value function with element-dependent values (em/ex/ch/%/currentColor/attr()/counters), parsed ONCE per process and shared between renders like the UA sheets. Probes: hyphenation of pattern-derived words for every dictionary, every predefined counter style over a value range, GetLangQuotes over language tags. Every document and probe: 5 renders in a row + once more after the others in one process, first render of 2 other fresh processes with different predecessors, alone in a fresh process, concurrently in a batch of 8, at the end of the harness process after everything else; plus Unpack calls and random histories on brokenOutOfFlowMap; some documents twice with another root font size (siblings, same shared stylesheets); race binary (runs alongside) on corpus x4, probes x4 and batches grouped by shared stylesheet; non-trivial = document renders with > 50 backend events / multi-op history; distinct by document and comparison kind",
+    "rule": "corpus/C15/*.json first, then SplitMix64-seeded paginated documents interleaved with table probes. Documents: many ids per page, internal/external/dangling links, ::before/::after/::marker, floats and abspos broken across pages, counters, target-counter/target-text, string-set, running elements, bookmarks, inline SVG, tables, flex, columns, CSS grid (areas, spans, fr, named lines), data-URL and file images (image cache), hyphens:auto in every language that has a dictionary with words DERIVED FROM THE DICTIONARY'S PATTERNS (non-standard patterns of hu/de/af/ro/eo/sq/mn/te/zu included) plus natural words, quotes:auto with language tags that are not keys of the table, counter styles (UA and @counter-style, extends chains, cycles), the full HTML5 UA stylesheet with presentational hints, @font-face rules giving the same family name to different font files in different documents with lengths in ex/ch/rem, invalid CSS (logger); user stylesheets from a pool that contains one declaration per computed-value function with element-dependent values (em/ex/ch/%/currentColor/attr()/counters), parsed ONCE per process and shared between renders like the UA sheets. Probes: hyphenation of pattern-derived words for every dictionary, every predefined counter style over a value range, GetLangQuotes over language tags. Every document and probe: 5 renders in a row + once more after the others in one process, first render of 2 other fresh processes with different predecessors, alone in a fresh process, concurrently in a batch of 8, at the end of the harness process after everything else; stream rewrite-same-doc: ONE document.Document (dedicated multi-page documents with h1-h6 / bookmark-level bookmarks, ids, anchor: attr(), internal / dangling / external links, link: attr(), transformed boxes, attachments, page marks -- and every corpus / generated document) written four times on fresh recording backends at zoom 1, 1, z, 1: writes #2 and #4 must equal #1, write #3 the first write at zoom z of a fresh Document (traces are snapshots copied right after each Write); plus Unpack calls and random histories on brokenOutOfFlowMap; some documents twice with another root font size (siblings, same shared stylesheets); race binary (runs alongside) on corpus x4, probes x4 and batches grouped by shared stylesheet; non-trivial = document renders with > 50 backend events / multi-op history; distinct by document and comparison kind",
 }
 MANIFEST = {
     "text": "Coq theorems: permutation-invariance of each modelled Go-map iteration site (anchors per page after sort = canonical-order lemma; pseudo-element styles, SVG attribute cascade, string-set/bookmark pass via a commutation lemma for folds over independent keys; insertion-ordered brokenOutOfFlow map), refutation witnesses for the two sites that were order-sensitive on the pinned tree (repaired in /repo) and for Unpack on multi-key stacks, and non-interference of N interleaved renders under the hypothesis that no step writes a global -- or writes it benignly: a memo cache of a pure function is proved transparent under every schedule and history (the hyphenation cache), while a cache whose value depends on the render (ex/ch ratios) and a store through a pointer into a shared table are refuted. A source translator (go/parser + go/types) re-discharges the hypotheses on every run by vm_compute over generated lists: writes to globals incl. through local aliases, escapes of reference-carrying global data, stores into types reachable from globals, ranges over maps, each against a reviewed allow-list. Tie: full backend traces of generated documents compared across repeats, fresh processes, concurrent-vs-sequential and histories; anchors and ordered-map histories evaluated against the model; race-detector runs.",
